@@ -366,8 +366,8 @@ func driver(t *testing.T, p *Property, j job) int {
 		os.WriteFile(cf, cb, 0o644)
 		min := v.Case
 		if !strings.HasPrefix(class, "process_crash") {
-			sj := job{Mode: "shrink", Prop: p.ID, CaseFile: cf, Out: cf + ".min", WantClass: class, BudgetS: 90}
-			if out, err := selfExec(sj, 4*time.Minute); err != nil {
+			sj := job{Mode: "shrink", Prop: p.ID, CaseFile: cf, Out: cf + ".min", WantClass: class, BudgetS: 45}
+			if out, err := selfExec(sj, 100*time.Second); err != nil {
 				fmt.Fprintf(os.Stderr, "harness: shrink failed (%v): %s\n", err, tailStr(string(out), 800))
 			}
 			if mb, err := os.ReadFile(cf + ".min"); err == nil {
@@ -511,6 +511,18 @@ func shrinkJob(t *testing.T, p *Property, j job) {
 		return // not reproducible in-process: keep the original
 	}
 	best := c
+	save := func(x Case) {
+		b, _ := json.Marshal(x)
+		os.WriteFile(j.Out, b, 0o644)
+	}
+	inner := fails
+	fails = func(x Case) (bool, Result) {
+		ok, r := inner(x)
+		if ok {
+			save(x) // keep the smallest failing case found so far even if this job is cut short
+		}
+		return ok, r
+	}
 	// 1. make the schedule explicit, then minimise the preemption list
 	if best.Sched != nil && !best.Sched.Explicit && res.PreemptSteps != nil {
 		x := best.clone()
